@@ -10,7 +10,9 @@ EXPLANATION = (
     "the same-named method of its own payload with the parameters passed through and re-wraps in its own variant (R2); "
     "size_hint of the four mode iterators is (len, Some(len)) with len = ExactSizeIterator::len(self) (R3); len() consults every "
     "collection whose emptiness makes next() return None at once (R4); a custom nth(n) that clamps n must have a None return guarded "
-    "by a comparison of n with len() (R5: std's contract nth(n >= len) == None, which step_by/skip rely on). "
+    "by a comparison of n with len() (R5: std's contract nth(n >= len) == None, which step_by/skip rely on); len() measures the "
+    "collection whose get(idx - 1)? ends next() (R6); in every nth the caller's n (usize::MAX included) takes part in overflow-capable "
+    "arithmetic only after a dominating comparison of n itself or through min / saturating_* / checked_* (R7). "
     "nth(n) == n+1 x next, len == remaining, behaviour after exhaustion are arithmetic over runtime state: NOT decided.")
 
 GD = 'any::difficulty::gradual::GradualDifficulty'
